@@ -761,12 +761,72 @@ def rule_r8(ctx, cg: CallGraph) -> RuleResult:
     return rr
 
 
+def rule_r9(ctx) -> RuleResult:
+    """No AttributeError on the context: the class uses __slots__, so an attribute exists only once
+    it has been assigned.  Every helper the constructor calls on itself (`self.init_*()`,
+    `self.create_db()`) assigns the same set of attributes on every path to its exit -- an early
+    return that skips one of them leaves a slot empty for some configurations (e.g. language
+    editions without a localization file), and reading it later raises out of expand()."""
+    from ..core.flow import Flow
+
+    rr = RuleResult("C05.R9", "constructor helpers assign the same context attributes on every path", min_instances=3)
+    init = ctx.fn("core.Wtp.__init__")
+    helpers = []
+    for c in walk_no_nested(init):
+        if isinstance(c, ast.Call) and isinstance(c.func, ast.Attribute) and isinstance(c.func.value, ast.Name) and c.func.value.id == "self" \
+                and ctx.index.has_func("core.Wtp." + c.func.attr):
+            helpers.append("core.Wtp." + c.func.attr)
+    if len(helpers) < 3:
+        raise AnalysisError("Wtp.__init__: fewer than 3 self.<helper>() calls found (4 confirmed by hand)")
+
+    class Assigned(Flow):
+        def transfer(self, st, state):
+            out = set(state)
+            tgs = st.targets if isinstance(st, ast.Assign) else [st.target] if isinstance(st, ast.AnnAssign) and st.value is not None else []
+            for t in tgs:
+                for el in (t.elts if isinstance(t, (ast.Tuple, ast.List)) else [t]):
+                    if isinstance(el, ast.Attribute) and isinstance(el.value, ast.Name) and el.value.id == "self":
+                        out.add(el.attr)
+            return [frozenset(out)]
+
+    # walk the constructor in order: what is already assigned when a helper is called is not the helper's obligation
+    assigned = frozenset()
+    for st in init.body:
+        called = [c for c in ast.walk(st) if isinstance(c, ast.Call) and isinstance(c.func, ast.Attribute) and isinstance(c.func.value, ast.Name)
+                  and c.func.value.id == "self" and "core.Wtp." + c.func.attr in helpers]
+        if called and isinstance(st, ast.Expr):
+            h = "core.Wtp." + called[0].func.attr
+            fn = ctx.fn(h)
+            w = Assigned()
+            out = w.run_function(fn, [assigned])
+            exits = [s_ for s_ in out.fall] + [s_ for _, s_ in out.ret]
+            if not exits:
+                continue
+            union = frozenset().union(*exits)
+            inter = frozenset(exits[0]).intersection(*exits[1:]) if len(exits) > 1 else frozenset(exits[0])
+            if union - inter:
+                rr.bad(Finding("C05.R9", "src/wikitextprocessor/core.py", h, "self.{} assigned on some paths only".format(", self.".join(sorted(union - inter))),
+                               "a path through this constructor helper returns without assigning {}: on a context built that way any later read of "
+                               "the attribute raises AttributeError (the class has __slots__), e.g. out of {{{{formatnum:1|R}}}}".format(
+                                   ", ".join(sorted(union - inter))), fn.lineno))
+            else:
+                rr.ok(h, "assigns {} on every path".format(", ".join(sorted(union - assigned)) or "nothing new"),
+                      {"helper": h, "attrs": sorted(union - assigned), "exits": len(exits)})
+            assigned = inter
+        else:
+            o = Assigned().run_block([st], {assigned})
+            falls = list(o.fall)
+            if falls:
+                assigned = frozenset(falls[0]).intersection(*falls[1:]) if len(falls) > 1 else frozenset(falls[0])
+    return rr
+
+
 def run(ctx) -> list:
     cg = CallGraph(ctx.index)
     sf = SqlFacts(ctx.index)
     scope = _scope(ctx, cg)
     results = [rule_r1(ctx, cg), rule_r2(ctx, cg, scope), rule_r3(ctx), rule_r4(ctx, cg, scope), rule_r5(ctx, cg, sf),
-            rule_r6(ctx), rule_r7(ctx, cg), rule_r8(ctx, cg)]
+            rule_r6(ctx), rule_r7(ctx, cg), rule_r8(ctx, cg), rule_r9(ctx)]
     if ctx.thorough:
         from ..core.cgcheck import crosscheck
 
